@@ -318,7 +318,7 @@ func init() {
 	})
 	reg(&PropSpec{
 		ID: "C08", Level: "model_checking",
-		Explanation: bmcText + "C08: pipe.New (the pump goroutine, newq/enq/deq/head/emit): sender of n symbolic values (optionally closing the send side), receiver present or absent, cancel at any step; queue nodes and the per-receive cells live in bounded arenas (symbolic slot indices). Checked: FIFO / exactly-once (j-th received value is x_j), nothing invented, the sender always gets all n sends through while the context is live (also with no receiver), after cancel every send completed before the cancel is delivered and the receive side closes, closing the send side is a clean end of stream (no panic). Bounds: capacity 0..2, n 1..2 (capacity>=1 with n=2, cancel and a receiver only in the thorough tier: minutes per job).",
+		Explanation: bmcText + "C08: pipe.New (the pump goroutine, newq/enq/deq/head/emit): sender of n symbolic values (optionally closing the send side), receiver present or absent, cancel at any step; queue nodes and the per-receive cells live in bounded arenas (symbolic slot indices). Checked: FIFO / exactly-once (j-th received value is x_j), nothing invented, the sender always gets all n sends through while the context is live (also with no receiver), after cancel every send completed before the cancel is delivered and the receive side closes, closing the send side is a clean end of stream (no panic). Bounds: capacity 0..2, n 1..2 (capacity>=1 with n=2, cancel and a receiver only in the thorough tier: minutes per job); plus bursts of 2 (thorough: also 3) buffered sends completed before the pump first runs (capacity 2 / 3), cancel at any step, with a receiver.",
 		Assumptions: append([]string{"sync.Pool: in two configurations (pool=1) Get returns either a fresh node or ANY node Put before, chosen by the solver, with its stale contents; in the other configurations it is modelled as always fresh", "sends attempted after cancel are outside the statement (they may fail: the pump closes the send side)"}, bmcAssumptions...),
 		Jobs: func(tier string) []JobSpec {
 			ns := []int{1, 2}
@@ -335,6 +335,11 @@ func init() {
 					}
 				}
 			}
+			// bursts: the sends have completed (buffered) before the pump runs at all
+			if tier == "thorough" { // 3 minutes
+				js = append(js, JobSpec{Group: "pipe", Harness: "VUnbound", Mode: "bmc", Params: map[string]int{"cap": 3, "n": 3, "mode": 0, "recv": 1, "burst": 1}, K: 40})
+			}
+			js = append(js, JobSpec{Group: "pipe", Harness: "VUnbound", Mode: "bmc", Params: map[string]int{"cap": 2, "n": 2, "mode": 0, "recv": 1, "burst": 1}, K: 40})
 			// one configuration under the lax virtual clock (timers, if any, may fire at any time)
 			js = append(js, JobSpec{Group: "pipe", Harness: "VUnbound", Mode: "bmc", Params: map[string]int{"cap": 0, "n": 2, "mode": 0, "recv": 1, "clock": 1}, K: 24})
 			// sync.Pool reuse: Get may return any node Put before (stale contents included)
